@@ -20,6 +20,15 @@ NETWORKS = {
         reactions=[(['X', 'Y'], ['X', 'Y', 'Y'], 'massaction', {'k': '$k1'}),
                    (['Y'], [], 'massaction', {'k': '$k2'}),
                    ([], ['X'], 'massaction', {'k': '$k3'}, 'gamma', [], ['Y'], {'k': 2.0, 'theta': 0.5})]),
+    # a reversible reaction written as ONE net-rate general propensity (what a reversible SBML reaction becomes): its rate takes either sign,
+    # and so do rates at arbitrary real states / parameters - the derivative is S x rate whatever the signs (seed C03-d dropped negative rates)
+    'signed-net-rate': dict(
+        signed=True,
+        species=['B', 'A'],
+        parameters=['kf', 'kr'],
+        reactions=[(['A'], ['B'], 'general', {'rate': 'kf*A - kr*B'}),
+                   (['B'], [], 'massaction', {'k': '$k2'}),
+                   (['A', 'A'], ['B'], 'massaction', {'k': '$k1'}, 'fixed', [], ['A'], {'delay': 0.5})]),
 }
 
 
@@ -53,7 +62,8 @@ def derivative_contract(name, net, safe, prepared=1):
         for nm in ('k1', 'k2', 'k3', 'K', 'n'):
             vals[nm] = ex.fresh(nm, REAL)
             fr.env[nm] = vals[nm]
-            ex.assume(tm.gt(vals[nm], tm.mk_real(0)))
+            if not net.get('signed'):
+                ex.assume(tm.gt(vals[nm], tm.mk_real(0)))
         rx = []
         for r in net['reactions']:
             d = {k: (vals[v[1:]] if isinstance(v, str) and v.startswith('$') else (tm.mk_real(v) if isinstance(v, float) else v))
@@ -64,8 +74,10 @@ def derivative_contract(name, net, safe, prepared=1):
             rx.append(tuple(r2))
         ex.force_inline = True
         try:
-            M = ex.instantiate(ex.program.find_class('Model'), [], dict(species=list(net['species']), reactions=rx,
-                                                                        initial_condition_dict={s: 0 for s in net['species']}))
+            kw = dict(species=list(net['species']), reactions=rx, initial_condition_dict={s: 0 for s in net['species']})
+            if net.get('parameters'):
+                kw['parameters'] = [(nm, ex.fresh(nm, REAL)) for nm in net['parameters']]
+            M = ex.instantiate(ex.program.find_class('Model'), [], kw)
             itf = ex.instantiate(klass, [M], {})
             for _ in range(prepared):       # an interface reused for a further deterministic simulation is prepared again
                 ex.call_method(itf, ex.program.find_method(klass, 'prep_deterministic_simulation'), [], {})
@@ -76,7 +88,8 @@ def derivative_contract(name, net, safe, prepared=1):
         return itf
     c.concrete_self = build
     c.requires('len(x) >= %d and len(dxdt) >= %d' % (len(net_stoich(net)), len(net_stoich(net))))
-    c.requires(' and '.join('x[%d] > 0' % i for i in range(len(net_stoich(net)))))
+    if not net.get('signed'):
+        c.requires(' and '.join('x[%d] > 0' % i for i in range(len(net_stoich(net)))))
     N = net_stoich(net)
     for s, row in sorted(N.items()):
         terms = ['%d * prop_rate(M, %d, "DET", x, 1.0)' % (v, r) for r, v in enumerate(row) if v != 0]
@@ -88,6 +101,8 @@ def derivative_contract(name, net, safe, prepared=1):
 
 for name, net in NETWORKS.items():
     derivative_contract(name, net, False)
+    if net.get('signed'):
+        continue          # the safe interface's derivative drops consumption at empty species by design: stated for non-negative states only
     derivative_contract(name, net, True)
     derivative_contract(name, net, False, prepared=3)
     derivative_contract(name, net, True, prepared=2)
